@@ -21,6 +21,7 @@ from esrally.mechanic import mechanic, provisioner
 from esrally.utils import net, opts
 
 from engines import race, simactor
+from props import c12_launcher
 
 ID = "C12"
 LEVEL = "fault_enumeration"
@@ -36,9 +37,10 @@ ASSUMPTIONS = [
     "after a failed start race control tears the actors down (ActorExitRequest), as racecontrol.race() does in its finally block",
 ]
 REQUIRED_CLAUSES = ["started-only-after-all-hosts", "stopped-only-after-all-hosts", "stop-exactly-once", "stop-sequence", "cleanup-unless-preserve",
-                    "start-failure-reported", "daemon-departure-reported", "external-untouched", "no-stall", "stopped-after-failure"]
+                    "start-failure-reported", "daemon-departure-reported", "external-untouched", "no-stall", "stopped-after-failure",
+                    "launcher:terminate-exactly-once", "launcher:kill-only-after-timeout", "launcher:system-metrics-stored-once", "launcher:stopped-list", "launcher:flush-and-cleanup"]
 REQUIRED_FEATURES = {"fault:none": 10, "fault:start-fails": 5, "fault:stop-fails": 5, "fault:leaves-before-use": 3, "fault:leaves-after-start": 3, "fault:external": 3,
-                     "remote-joins-late": 5, "several-nodes-per-host": 5, "local-and-remote": 5}
+                     "remote-joins-late": 5, "several-nodes-per-host": 5, "local-and-remote": 5, "non-target-convention-members": 10, "launcher": 20, "launcher:dead-node-among-living": 5}
 BUDGET = {"quick": {"cases": 60000, "seconds": 30}, "thorough": {"cases": 1500000, "seconds": 600}}
 
 
@@ -174,7 +176,10 @@ def small_universe():
                 for late_mask in range(1 << len(remotes)):
                     late = [remotes[i] for i in range(len(remotes)) if late_mask >> i & 1]
                     for fault in faults_for(combo):
-                        cases.append({"pairs": [list(p) for p in combo], "join_order": list(order), "late": late, "fault": fault, "delay": "zero", "preserve": False, "seed": len(cases)})
+                        c = {"pairs": [list(p) for p in combo], "join_order": list(order), "late": late, "fault": fault, "delay": "zero", "preserve": False, "seed": len(cases)}
+                        if len(cases) % 3 == 0 and remotes:
+                            c["extras"] = [{"ip": "10.0.9.1", "late": len(cases) % 2 == 0}]
+                        cases.append(c)
     return cases
 
 
@@ -185,8 +190,13 @@ def gen_case(rng):
     rng.shuffle(order)
     late = [ip for ip in remotes if rng.random() < 0.5]
     fault = rng.choice(faults_for(pairs))
-    return {"pairs": [list(p) for p in pairs], "join_order": order, "late": late, "fault": fault, "delay": rng.choice(["zero", "small", "heavy", "adversarial"]),
+    case = {"pairs": [list(p) for p in pairs], "join_order": order, "late": late, "fault": fault, "delay": rng.choice(["zero", "small", "heavy", "adversarial"]),
             "preserve": rng.random() < 0.3, "seed": rng.randint(0, 1 << 40), "epsilon": rng.choice([0.0, 0.0, 0.5])}
+    if rng.random() < 0.5:
+        # other members of the convention that are NOT target hosts (e.g. remote load-driver daemons): the dispatcher hears about them too,
+        # possibly after the last target host has shown up
+        case["extras"] = [{"ip": f"10.0.9.{i + 1}", "late": rng.random() < 0.5} for i in range(rng.randint(1, 2))]
+    return case
 
 
 # ------------------------------------------------------------------------------------------------------------ one run
@@ -201,6 +211,9 @@ def run_case(case, scratch):
     systems = {}
     for ip in remotes:
         systems[ip] = k.add_system(ip, {"coordinator": False, "ip": ip}, joined=ip not in case["late"])
+    extras = {}
+    for x in case.get("extras", []):
+        extras[x["ip"]] = k.add_system(x["ip"], {"coordinator": False, "ip": x["ip"]}, joined=not x["late"])
     fault = case["fault"]
     env = Env(k, fault)
     undo = [k.install()]
@@ -240,6 +253,10 @@ def run_case(case, scratch):
             if ip in case["late"] and not (fault["kind"] == "leaves-before-use" and fault["ip"] == ip and False):
                 k.post(t, "call", (lambda kk, ip=ip: kk.system_joins(systems[ip])))
                 t += rng.choice([0.0, 0.3, 2.0])
+        for x in case.get("extras", []):
+            if x["late"]:
+                t += rng.choice([0.0, 0.2, 1.0])
+                k.post(t, "call", (lambda kk, ip=x["ip"]: kk.system_joins(extras[ip])))  # after the target hosts have joined
         if fault["kind"] == "leaves-before-use":
             # the daemon goes away while the dispatcher is still waiting for daemons (i.e. before all of them have joined)
             ip = fault["ip"]
@@ -432,6 +449,8 @@ def one_case(ctx, case):
     check(ctx, case, res, problems, feats)
     if case["late"]:
         feats.add("remote-joins-late")
+    if case.get("extras"):
+        feats.add("non-target-convention-members")
     hosts = {}
     for ip, port in case["pairs"]:
         hosts.setdefault((ip, port), 0)
@@ -460,9 +479,19 @@ def run_shard(ctx):
             break
         one_case(ctx, universe[i])
     ctx.exhaustive[f"small universe: first {limit} of {len(universe)} (host list <= 3 pairs over 3 ips x 2 ports) x join order x lateness x single fault"] = done
+    # launcher class: every combination of up to 3 node process states (exhaustive), then random longer ones
+    import itertools as _it
+
+    combos = [list(c) for n in (1, 2, 3) for c in _it.product(c12_launcher.STATES, repeat=n)]
+    for j in range(ctx.shard, len(combos), ctx.nshards):
+        c12_launcher.launcher_case(ctx, None, explicit=combos[j])
+    ctx.exhaustive["launcher: all sequences of <= 3 node process states"] = True
     i = 0
     while ctx.more():
-        one_case(ctx, gen_case(ctx.case_rng(i)))
+        if i % 50 == 25:
+            c12_launcher.launcher_case(ctx, ctx.case_rng(i))
+        else:
+            one_case(ctx, gen_case(ctx.case_rng(i)))
         i += 1
 
 
@@ -478,7 +507,10 @@ def classify(v):
 
 
 def replay(ctx, rec):
-    one_case(ctx, rec["witness"]["case"])
+    if rec["witness"].get("workload") == "launcher":
+        c12_launcher.launcher_case(ctx, None, explicit=rec["witness"]["states"])
+    else:
+        one_case(ctx, rec["witness"]["case"])
 
 
 MANIFEST = {
